@@ -41,7 +41,7 @@ func vMixCase(s string) string {
 //symgo:harness prop=C20 kernel=K5-drm noreplay=1
 //symgo:redirect encoding/xml.Unmarshal vStubUnmarshalEnc
 //symgo:redirect (*archive/zip.File).Open vStubOpenMember
-//symgo:desc members: optional META-INF/rights.xml, optional META-INF/encryption.xml with 1..2 EncryptedData entries; algorithm in {IDPF font obfuscation, Adobe font obfuscation, AES-128-CBC, AES-256-CBC, unknown URI}; resource in {chapter .xhtml, .html, font .otf, image .jpg} at directory depth 0..1 with per-letter symbolic case of the file extension; xml.Unmarshal and zip member access are cut (harness-built encryptionXML)
+//symgo:desc members: optional META-INF/rights.xml stored before or after the other members (enumerated), optional META-INF/encryption.xml with 1..2 EncryptedData entries; algorithm in {IDPF font obfuscation, Adobe font obfuscation, AES-128-CBC, AES-256-CBC, unknown URI}; resource in {chapter .xhtml, .html, font .otf, image .jpg} at directory depth 0..1 with per-letter symbolic case of the file extension; xml.Unmarshal and zip member access are cut (harness-built encryptionXML)
 func H_C20_drm_decision() {
 	algos := []string{
 		"http://www.idpf.org/2008/embedding",
@@ -53,8 +53,9 @@ func H_C20_drm_decision() {
 	stems := []string{"ch1", "index", "font1", "cover"}
 	exts := []string{".xhtml", ".html", ".otf", ".jpg"}
 	rights := vAnyIntIn(0, 1) == 1
+	rightsLast := vAnyIntIn(0, 1) == 1 // archive order of the two markers is not significant
 	var members []*zip.File
-	if rights {
+	if rights && !rightsLast {
 		members = append(members, &zip.File{FileHeader: zip.FileHeader{Name: "META-INF/rights.xml"}})
 	}
 	n := vAnyIntIn(0, 2)
@@ -85,6 +86,9 @@ func H_C20_drm_decision() {
 		members = append(members, &zip.File{FileHeader: zip.FileHeader{Name: "META-INF/encryption.xml"}})
 	}
 	members = append(members, &zip.File{FileHeader: zip.FileHeader{Name: "OEBPS/ch1.xhtml"}})
+	if rights && rightsLast {
+		members = append(members, &zip.File{FileHeader: zip.FileHeader{Name: "META-INF/rights.xml"}})
+	}
 	err := checkForDRM(&zip.Reader{File: members})
 	if mustRefuse {
 		vAssert("drm-protected-is-refused", err == ErrDRMProtected)
